@@ -376,6 +376,11 @@ func ParseJoinTableExpression(expr *sqlparser.JoinTableExpr) (logical.Node, erro
 		return nil, errors.Wrap(err, "couldn't parse join right table expression")
 	}
 
+	if len(expr.Condition.Using) > 0 {
+		// Without this the USING clause would be silently dropped and the join would become a cross join.
+		return nil, errors.Errorf("JOIN ... USING is not supported, use an ON predicate")
+	}
+
 	var joinOn *logical.Expression
 	if expr.Condition.On != nil {
 		predicate, err := ParseExpression(expr.Condition.On)
